@@ -46,13 +46,27 @@ def tonnx_case(c, pid):
   module = IL.top_module(c['prog'], pid)
   streams = c['streams']
   rngs = nnx.Rngs(**{s: i + 1 for i, s in enumerate(streams)})
+  twin_rngs = nnx.Rngs(**{s: i + 1 for i, s in enumerate(streams)})       # advanced in lockstep: what keys the wrapper must hand to the Linen module
+
+  def keys_of(r):
+    ks = {name: stream() for name, stream in r.items()}
+    if 'params' not in ks and 'default' in ks:
+      ks['params'] = ks.pop('default')
+    return ks
+
+  def key_trace(tr):
+    return sorted([list(e[1]), e[2], e[3]] for e in tr if e[0] == 'key')
   mut = IL.dec_filter(c['mutable'])
   out = {'calls': []}
   x0 = jnp.asarray(np.array(c['xs'][0], dtype=np.int64))
   try:
     m = bridge.ToNNX(module, rngs=rngs)
+    del IL.TRACE[:]
     m.lazy_init(x0)
-    out['init'] = {'attrs': attrs_of(m), 'vars': as_linen(m)}
+    out['init'] = {'attrs': attrs_of(m), 'vars': as_linen(m), 'keys': key_trace(IL.TRACE)}
+    del IL.TRACE[:]
+    module.init_with_output(keys_of(twin_rngs), x0)
+    out['init']['keys_expected'] = key_trace(IL.TRACE)
   except Exception as e:  # pylint: disable=broad-except
     out['init'] = {'err': IL.classify(e)}
   ref = IL.run_init(module, x0, streams)
@@ -60,14 +74,24 @@ def tonnx_case(c, pid):
   if 'err' in out['init'] or 'err' in ref:
     return out
   variables = ref['raw']
-  for x in c['xs'][1:]:
+  for ci, x in enumerate(c['xs'][1:]):
     xa = jnp.asarray(np.array(x, dtype=np.int64))
     call = {'vars_before': as_linen(m)}
+    call_rngs = c.get('call_rngs', [None] * 9)[ci]          # seeds of an nnx.Rngs passed to this call, or None
+    kw = {} if call_rngs is None else {'rngs': nnx.Rngs(**{s: 100 + call_rngs + i for i, s in enumerate(streams)})}
+    src = twin_rngs if call_rngs is None else nnx.Rngs(**{s: 100 + call_rngs + i for i, s in enumerate(streams)})
     try:
-      y = m(xa, mutable=mut) if mut is not False else m(xa)
-      call['impl'] = {'out': [int(a) for a in np.asarray(y).reshape(-1)], 'vars': as_linen(m), 'attrs': attrs_of(m)}
+      del IL.TRACE[:]
+      y = m(xa, mutable=mut, **kw) if mut is not False else m(xa, **kw)
+      call['impl'] = {'out': [int(a) for a in np.asarray(y).reshape(-1)], 'vars': as_linen(m), 'attrs': attrs_of(m), 'keys': key_trace(IL.TRACE)}
     except Exception as e:  # pylint: disable=broad-except
       call['impl'] = {'err': IL.classify(e)}
+    try:
+      del IL.TRACE[:]
+      module.apply(IL.build_vars(call['vars_before']), xa, rngs=keys_of(src), mutable=True)
+      call['keys_expected'] = key_trace(IL.TRACE)
+    except Exception:  # pylint: disable=broad-except
+      call['keys_expected'] = None
     r = IL.run_apply(module, variables, xa, streams, mut)
     if 'err' in r:
       call['ref'] = {'err': r['err']}
@@ -86,8 +110,12 @@ class Custom(nnx.Variable):
   pass
 
 
-VT = {'Param': nnx.Param, 'BatchStat': nnx.BatchStat, 'Cache': nnx.Cache, 'Custom': Custom}
-COLOF = {'Param': 'params', 'BatchStat': 'batch_stats', 'Cache': 'cache', 'Custom': 'Custom'}
+class SubParam(nnx.Param):
+  pass
+
+
+VT = {'Param': nnx.Param, 'BatchStat': nnx.BatchStat, 'Cache': nnx.Cache, 'Custom': Custom, 'SubParam': SubParam}
+COLOF = {'Param': 'params', 'BatchStat': 'batch_stats', 'Cache': 'cache', 'Custom': 'Custom', 'SubParam': 'SubParam'}
 
 
 class Sub(nnx.Module):
